@@ -563,6 +563,8 @@ class PopulationBalanceModel:
 
         #Find size class for nucleated particles
         nRad = np.argmax(self.PSDbounds > nucRadius) - 1
+        if nucRadius < self.PSDbounds[0]:
+            nRad = 0
         dXdt[nRad] += nucRate
 
         return dXdt
@@ -615,6 +617,8 @@ class PopulationBalanceModel:
 
         #Find size class for nucleated particles
         nRad = np.argmax(self.PSDbounds > nucRadius) - 1
+        if nucRadius < self.PSDbounds[0]:
+            nRad = 0
         dXdt[nRad] += nucRate
 
         return dXdt
